@@ -243,6 +243,8 @@ PROBES = [
     "(x>0)*(3)**(-2)",
     "min(x,2)**(-1)",
     "max(x,y,z)/min(3,4)",
+    "x*exp(-0.1*(t-2020))",
+    "max(t-2020,0)+dt*y",
     "min(x)",
     "max(x)-min(x)",
     "max(y)+x*min(z)",
@@ -481,7 +483,7 @@ def run_case(case):
 
         if kind == "random":
             rng = np.random.default_rng(case["seed"])
-            names = ["x", "y", "z", "a:b", "w:flow"]
+            names = ["x", "y", "z", "a:b", "w:flow", "t", "dt"]  # (time and step size are quantities a function may depend on like any other)
             for i in range(case["n"] + len(PROBES)):
                 # (a few hand-written shapes that the random generator reaches only in the thorough tier come first)
                 s = PROBES[i] if i < len(PROBES) else gen_expr(rng, names, int(rng.integers(1, 5)))
